@@ -2,7 +2,8 @@
    documented-format model (Format.enc / Format.dec) and the certified judgement layout_ok. *)
 From Coq Require Import ZArith List Bool Lia.
 Import ListNotations.
-From XO Require Import Slots Strides BufOps Types Format Check LayoutProofs RoundTrip Update UpdateSize UpdateFrame.
+From XO Require Import Slots Strides BufOps Types Format Check LayoutProofs RoundTrip Update UpdateSize UpdateFrame UpdateAt PartExtent.
+From XO Require CopyBytes DecLocal.
 Open Scope Z_scope.
 
 (* an image occupies exactly [off, off+len img): placing it changes no other byte *)
@@ -42,6 +43,35 @@ Theorem C03_assignment_writes_inside_the_element : forall t v p x v' img,
     enc st old = Some a /\ enc st x' = Some b /\ len a = len b /\ enc t v' = Some img' /\
     exists pre post, img = pre ++ a ++ post /\ img' = pre ++ b ++ post.
 Proof. exact assign_frame. Qed.
+(* NOTHING MOVES: after an honoured assignment EVERY part of the object (every path q: inside the assigned
+   element, above it, or anywhere else) lies at the offset it had and its own image has the length it had --
+   the extent a nested struct / array reports never changes; part_extent is meaningful: the part's image sits
+   at that offset of the object's image, inside it *)
+Theorem C03_assignment_moves_no_part : forall t v p x v' img, assign t v p x = Some v' -> enc t v = Some img ->
+  forall q, part_extent t v' q = part_extent t v q.
+Proof. exact assign_moves_no_part. Qed.
+Theorem C03_part_extent_is_where_the_part_sits : forall t v q img o l m off, enc t v = Some img -> part_extent t v q = Some (o, l) -> sits img m off ->
+  exists st w e, sub_ty t q = Some st /\ vget v q = Some w /\ enc st w = Some e /\ len e = l /\ sits e m (off + o) /\
+    off <= off + o /\ off + o + l <= off + len img.
+Proof. exact part_sits_in_buffer. Qed.
+(* what is read through ANY handle or view of an object depends on the bytes of the object's own extent only:
+   two buffers (or one buffer at two times) that agree on [off, off+size) give the same value -- whatever else
+   was written, freed, re-used or appended elsewhere *)
+Theorem C03_bytes_outside_the_extent_are_irrelevant : forall t v img m m' off, has_refs t = false ->
+  enc t v = Some img -> len img < 2^62 -> sits img m off ->
+  len m <= len m' -> CopyBytes.agree_on m m' off (len img) ->
+  dec t m' off = Some (v, len img).
+Proof. exact CopyBytes.copy_reads_its_own_bytes. Qed.
+(* ANY ACCEPTED BYTES: whatever the strict decoder accepts as an object of a reference-free type (a fresh image,
+   or the bytes left by any history of assignments, slack included), the value and the size it returns are a
+   function of the bytes of [off, off+size) alone; the size is never negative and a statically sized type always
+   reports its class size *)
+Theorem C03_decoder_reads_own_extent_only : forall t m off v s m', has_refs t = false -> dec t m off = Some (v, s) ->
+  len m <= len m' -> CopyBytes.agree_on m m' off s -> dec t m' off = Some (v, s).
+Proof. exact DecLocal.dec_local. Qed.
+Theorem C03_decoded_size : forall t m off v s, has_refs t = false -> dec t m off = Some (v, s) ->
+  0 <= s /\ forall cs, csize t = Some cs -> s = cs.
+Proof. exact DecLocal.dec_size. Qed.
 Theorem C03_slot_rounding : forall n, n <= slot n < n + 8 /\ slot n mod 8 = 0.
 Proof. exact slot_spec. Qed.
 Print Assumptions C03_write_frame.
@@ -52,3 +82,8 @@ Print Assumptions C03_reported_size_is_extent_general.
 Print Assumptions C03_static_size.
 Print Assumptions C03_assignment_keeps_extent.
 Print Assumptions C03_assignment_writes_inside_the_element.
+Print Assumptions C03_assignment_moves_no_part.
+Print Assumptions C03_part_extent_is_where_the_part_sits.
+Print Assumptions C03_bytes_outside_the_extent_are_irrelevant.
+Print Assumptions C03_decoder_reads_own_extent_only.
+Print Assumptions C03_decoded_size.
